@@ -1,7 +1,11 @@
 package props
 
 import (
+	"bytes"
 	"fmt"
+	"runtime/debug"
+	"sort"
+	"strings"
 	"testing"
 	"time"
 
@@ -141,6 +145,7 @@ func runC02(c c02Case) kit.Result {
 		res.Err = fmt.Errorf("writing dataset: %v", err)
 		return res
 	}
+	var held []c02Held
 	err := db.DB.View(func(tx *bbolt.Tx) error {
 		for qi := range c.Queries {
 			q := &c.Queries[qi]
@@ -233,6 +238,7 @@ func runC02(c c02Case) kit.Result {
 			if err := check("QueryIds", ids, count, err); err != nil {
 				return err
 			}
+			held = append(held, c02Held{text: text, ids: ids, want: want})
 			pq, err := ast.Parse(store, text)
 			if err != nil {
 				return fmt.Errorf("query: %s rejected by ast.Parse: %v", text, err)
@@ -334,7 +340,135 @@ func runC02(c c02Case) kit.Result {
 		return nil
 	})
 	res.Err = err
+	if err == nil && len(c.Queries) > 0 {
+		res.Err = c02FuncSymbols(c, schema, db.DB, &res)
+	}
+	if res.Err == nil {
+		res.Err = c02ResultsOutliveTx(db.DB, held)
+	}
 	return res
+}
+
+type c02Held struct {
+	text      string
+	ids, want []string
+}
+
+// c02ResultsOutliveTx: the id lists a query returned are the caller's to keep. After the read transaction has ended
+// the data they were read from is deleted and the file pages rewritten by three further transactions; the lists must
+// still say what they said.
+func c02ResultsOutliveTx(db *bbolt.DB, held []c02Held) (err error) {
+	for round := 0; round < 3; round++ {
+		if e := db.Update(func(tx *bbolt.Tx) error {
+			if round == 0 {
+				return tx.DeleteBucket([]byte("application"))
+			}
+			b, e := tx.CreateBucketIfNotExists([]byte("application"))
+			if e != nil {
+				return e
+			}
+			for i := 0; i < 24; i++ {
+				if e := b.Put([]byte(fmt.Sprintf("%c%c-filler-%02d", 'A'+round, 'A'+round, i)), bytes.Repeat([]byte{byte('#' + round)}, 150)); e != nil {
+					return e
+				}
+			}
+			return nil
+		}); e != nil && e != bbolt.ErrBucketNotFound {
+			return fmt.Errorf("harness: rewriting the database: %v", e)
+		}
+	}
+	defer debug.SetPanicOnFault(debug.SetPanicOnFault(true))
+	defer func() {
+		if r := recover(); r != nil {
+			err = fmt.Errorf("reading the id list a query returned, after its transaction ended and the database was rewritten, faults: %v", r)
+		}
+	}()
+	for _, h := range held {
+		if fmt.Sprintf("%q", h.ids) != fmt.Sprintf("%q", h.want) {
+			return fmt.Errorf("query: %s returned %q; after the transaction ended and the data was deleted and the file rewritten, the same list reads %q", h.text, h.want, h.ids)
+		}
+	}
+	return nil
+}
+
+// c02FuncSymbols sorts and pages by the function symbols fx (string) and bx (bool), whose values
+// come from application state: the state is replaced between two rounds while the database is not written at all,
+// and every query has to reflect the state of the moment.
+func c02FuncSymbols(c c02Case, schema *kit.ScanSchema, db *bbolt.DB, res *kit.Result) error {
+	n := len(c.Data.People)
+	if n == 0 {
+		return nil
+	}
+	for round := 0; round < 2; round++ {
+		d2 := &kit.Dataset{Variant: c.Data.Variant, Places: c.Data.Places}
+		ext := &kit.ExtState{Fx: map[string]*string{}, Bx: map[string]bool{}}
+		for i, p := range c.Data.People {
+			src := c.Data.People[(i+round)%n] // round 1: everybody gets the neighbour's values
+			q := p
+			q.F = map[string]kit.Val{}
+			for k, v := range p.F {
+				q.F[k] = v
+			}
+			// (the function always answers with a string: how a function symbol without an answer sorts is not stated)
+			s := "none"
+			if v := src.F["sa"]; v.K == "s" {
+				s = v.S
+			}
+			q.F["fx"] = kit.SV(s)
+			ext.Fx[p.ID] = &s
+			b := src.F["ba"].K == "b" && src.F["ba"].B
+			q.F["bx"] = kit.BV(b)
+			ext.Bx[p.ID] = b
+			d2.People = append(d2.People, q)
+		}
+		schema.SetExt(ext)
+		all := idsOf(c.Data, "people")
+		var withBx []string
+		for _, p := range d2.People {
+			if p.F["bx"].B {
+				withBx = append(withBx, p.ID)
+			}
+		}
+		sort.Strings(withBx)
+		page := c.Queries[0].Page
+		if round == 0 {
+			page = kit.Paging{}
+		}
+		err := db.View(func(tx *bbolt.Tx) error {
+			for _, q := range []struct {
+				pred    string
+				matches []string
+				sort    []kit.SortKey
+			}{
+				{"", all, []kit.SortKey{{Sym: "fx"}}},
+				{"", all, []kit.SortKey{{Sym: "fx", Desc: true, Dir: "desc"}}},
+				{"", all, []kit.SortKey{{Sym: "bx"}, {Sym: "fx", Desc: true, Dir: "desc"}}},
+				{"bx = true", withBx, []kit.SortKey{{Sym: "fx"}}},
+				{"bx = true", withBx, nil},
+			} {
+				spec := kit.QuerySpec{Kind: "people", Sort: q.sort, Page: page}
+				text := strings.TrimSpace(q.pred + " " + spec.Render())
+				if q.pred == "" && len(q.sort) > 0 {
+					text = "true " + spec.Render()
+				}
+				want := kit.RefPage(kit.RefOrder(d2, "people", q.matches, q.sort), page)
+				ids, count, err := schema.People.QueryIds(tx, text)
+				if err != nil {
+					return fmt.Errorf("query over function symbols: %s: %v", text, err)
+				}
+				if fmt.Sprint(ids) != fmt.Sprint(want) || int(count) != len(q.matches) {
+					return fmt.Errorf("query over function symbols (round %d: application state %s, database untouched): %s -> %v count %d\n  reference -> %v count %d",
+						round, map[int]string{0: "as first set", 1: "replaced since the previous query"}[round], text, ids, count, want, len(q.matches))
+				}
+			}
+			return nil
+		})
+		if err != nil {
+			return err
+		}
+	}
+	res.Classes = append(res.Classes, "function-symbols")
+	return nil
 }
 
 func constantField(d *kit.Dataset, f string) bool {
